@@ -35,6 +35,19 @@ fn inline_wake_case(prop: &str, cases: &mut dyn Write, meta: &mut dyn Write) {
     writeln!(meta, "{}\t{}\t{}", id, c.class, checks.join(",")).unwrap();
 }
 
+/// serve() on entities dated before 1970 (serve_engine::pre_epoch_checks): harness-level checks attached to
+/// one ordinary Body::empty() case.
+fn pre_epoch_case(prop: &str, cases: &mut dyn Write, meta: &mut dyn Write) {
+    if watch::gate("H:entities-dated-before-1970").is_none() {
+        return;
+    }
+    let c = once_engine::OnceCase { kind: 0, data: vec![], polls: 2, class: "H:entities-dated-before-1970".into() };
+    let checks: Vec<String> = serve_engine::pre_epoch_checks().into_iter().map(|f| format!("{}:{}", prop, f)).collect();
+    let id = format!("{}-P0", prop);
+    writeln!(cases, "once {} {}", id, once_engine::run(&c).to_string()).unwrap();
+    writeln!(meta, "{}\t{}\t{}", id, c.class, checks.join(",")).unwrap();
+}
+
 fn main() {
     let args: Vec<String> = std::env::args().collect();
     if args.len() < 2 {
@@ -223,11 +236,14 @@ fn main() {
                     gen_serve::gen_mixed(&mut rng, n_mixed * 3, "c13", &mut emit_serve);
                     gen_serve::gen_overflow_corner(&mut rng.fork(), thorough, &mut emit_serve);
                     gen_serve::gen_far_future(&mut emit_serve);
+                    drop(emit_serve);
+                    pre_epoch_case(&prop, &mut cases, &mut meta);
                 }
                 "C14" => {
                     drop(emit_serve);
                     histories::gen_c14(&mut rng, thorough, &mut cases, &mut meta, &prop);
                     histories::gen_c14_boundary(thorough, &mut cases, &mut meta, &prop, 0);
+                    pre_epoch_case(&prop, &mut cases, &mut meta);
                 }
                 "C15" => {
                     drop(emit_serve);
